@@ -2,7 +2,7 @@
    occupancies, limits, tie patterns, both directions. *)
 From Coq Require Import ZArith List Bool Arith Permutation.
 From HV Require Import Ord ListX Sprout SproutFacts Select SelectFacts FilterFacts.
-From HV Require Import Tree DriverPrim SproutPrim GenEquivStops GenFilters GenEquivFilters.
+From HV Require Import Tree DriverPrim SproutPrim GenEquivStops GenLevelLimit GenDemeLimit FilterDict GenEquivLevelLimit GenEquivDemeLimit.
 Import ListNotations.
 
 (* BestPerDeme: exactly the (first) best of the deme's current population *)
